@@ -4,3 +4,13 @@ from __future__ import annotations
 from pathlib import Path
 
 from .gen_tables import lean_str_list, literal, table  # noqa: F401
+
+
+@table("C13Docking")
+def c13_docking(repo: Path) -> str:
+    """the local `dockingdomains` set of filter_nonterminal_docking_domains"""
+    names = sorted(literal(repo / "antismash/detection/nrps_pks_domains/domain_identification.py",
+                           "dockingdomains", within="filter_nonterminal_docking_domains"))
+    return ("namespace ASV.Generated\n"
+            f"def dockingDomains : List String := {lean_str_list(names)}\n"
+            "end ASV.Generated\n")
